@@ -210,9 +210,9 @@ TAGS2X = {k: {'e': 'id', 'n': 'pcm3', 't': 'id', 'sen': nrm, 'st': nrm, 'eref': 
           for k, nrm in (('adf21', 'cm3'), ('bmp', 'id'), ('bme', 'cm3'))}
 
 
-def gen_2x(ctx, rng):
+def gen_2x(ctx, rng, kind=None):
     from cherab.core.atomic import hydrogen, deuterium, helium, carbon, neon, beryllium
-    kind = rng.choice(['adf21', 'bmp', 'bme'])
+    kind = kind or rng.choice(['adf21', 'bmp', 'bme'])
     neb, ndt, ntt = grid_size(rng, ctx), grid_size(rng, ctx), grid_size(rng, ctx)
     eb = [e3(x) for x in increasing(rng, neb, 5e3, 2e5)]
     dt = [e3(10 ** x) for x in increasing(rng, ndt, 10, 15)]
@@ -449,10 +449,12 @@ def f5(x):
     return '%.5f' % x
 
 
-def gen_11(ctx, rng, wrong=None, dup=False, fixed=None):
+def gen_11(ctx, rng, wrong=None, dup=False, fixed=None, force=None):
     from cherab.core.atomic import hydrogen, deuterium, helium, carbon, neon, argon, krypton, xenon, nitrogen
     cls = rng.choice(sorted(CLS11))
     element = rng.choice([hydrogen, helium, carbon, nitrogen, neon, argon, krypton, xenon])
+    if force:
+        cls, element = force
     Z = element.atomic_number
     nblocks = min(Z, rng.choice([1, 1, 2, 3, 6, 10, 12, rng.randint(1, 12)]))
     nNe, nTe = grid_size(rng, ctx), grid_size(rng, ctx)
@@ -672,9 +674,9 @@ def level_key(s):
     return conf.replace('_', ' ') + ' ' + spin + L_LOOKUP[int(l)] + j
 
 
-def gen_15(ctx, rng, absent=False):
+def gen_15(ctx, rng, absent=False, modes=None):
     from cherab.core.atomic import hydrogen, deuterium, helium, carbon, neon, nitrogen, beryllium
-    mode = rng.choice(['hydrogen', 'hydrogen-like', 'full', 'full', 'full-nodot', 'hf-hydrogen', 'hf-hydrogen-like', 'bnd'])
+    mode = rng.choice(modes or ['hydrogen', 'hydrogen-like', 'full', 'full', 'full-nodot', 'hf-hydrogen', 'hf-hydrogen-like', 'bnd'])
     hf = None
     fname = None
     if mode == 'hydrogen':
@@ -917,6 +919,154 @@ def run(ctx):
     finally:
         w.close()
         shutil.rmtree(_HOME, ignore_errors=True)
+
+
+# ------------------------------------------------------------------------------------------------ install_files (bulk entry point)
+FAMILY11 = {cls: v[1] for cls, v in CLS11.items()}           # ADF11 class -> get_* of its repository family
+INSTALLER_FAMILY = {'install_adf11' + cls: cls for cls in CLS11}
+
+
+def gen_bundle(ctx, rng, bid):
+    """one configuration dict with every supported key: element A gets all six ADF11 classes (different tables each, so a
+    file landing in a neighbouring family is visible), element B exactly one class (its other five families must stay empty)"""
+    from cherab.core.atomic import carbon, neon, argon, nitrogen, krypton
+    elA, elB = rng.sample([carbon, neon, argon, nitrogen, krypton], 2)
+    clsB = rng.choice(sorted(CLS11))
+    cases = []
+    for cls in sorted(CLS11):
+        cases.append(('adf11' + cls, gen_11(ctx, rng, force=(cls, elA))))
+    cases.append(('adf11' + clsB, gen_11(ctx, rng, force=(clsB, elB))))
+    cases.append(('adf12', gen_12(ctx, rng)))
+    cases.append(('adf15', gen_15(ctx, rng, modes=['hydrogen', 'hydrogen-like', 'full', 'full-nodot', 'bnd'])))
+    cases.append(('adf21', gen_2x(ctx, rng, kind='adf21')))
+    cases.append(('adf22bmp', gen_2x(ctx, rng, kind='bmp')))
+    cases.append(('adf22bme', gen_2x(ctx, rng, kind='bme')))
+    spell = rng.choice([str.lower, str.upper, lambda k: k[:3].upper() + k[3:]])      # install_files compares adf.lower()
+    for key, c in cases:
+        c['bundle'] = bid
+        c['key'] = key
+    return dict(id=bid, cases=cases, elA=elA, elB=elB, clsB=clsB, spell=spell,
+                desc=dict(format='install_files', keys=[k for k, _ in cases], element_all_classes=elA.symbol,
+                          element_one_class=elB.symbol, its_class=clsB))
+
+
+def _get11(R, cls, el, charge, repo):
+    from cherab.core.atomic import hydrogen
+    g = getattr(R, FAMILY11[cls])
+    return call(g, hydrogen, 0, el, charge, repo) if cls == 'ccd' else call(g, el, charge, repo)
+
+
+def _readback11(R, c, cls, repo):
+    """tables of ADF11 case c expected in the family of `cls` (charges shifted by that family's installer)"""
+    corr = CLS11[cls][2]
+    for z, tab in zip(c['z1s'], c['rates']):
+        st, back = _get11(R, cls, c['element'], z + corr, repo)
+        if st != 'ok':
+            return 'get raised %s for charge %d' % (st, z + corr)
+        dd = cmp_struct(back, {'ne': ('p10pcm3', c['ne']), 'te': ('p10', c['te']), 'rate': ('p10cm3', tab)})
+        if dd:
+            return 'charge %d %s' % (z + corr, dd)
+    return None
+
+
+def run_bundle(ctx, w, b, texts, model_dispatch):
+    """install_files(configuration) with all keys at once, then every family is read back through its own get_* and the
+    families that received nothing must be empty.  Returns (oracle failures, model disagreements)."""
+    from cherab.openadas import install as I, repository as R
+    from cherab.openadas.repository.utility import DEFAULT_REPOSITORY_PATH
+    from cherab.core.atomic import hydrogen
+    w.fresh_repo()
+    shutil.rmtree(DEFAULT_REPOSITORY_PATH, ignore_errors=True)
+    config = {}
+    for (key, c), text in zip(b['cases'], texts):
+        rel, _ = w.write(text, c.get('fname'))
+        c['rel'] = rel
+        if c['fmt'] == '11':
+            args = (hydrogen, 0, c['element'], rel) if c['cls'] == 'ccd' else (c['element'], rel)
+        elif c['fmt'] == '12':
+            args = (c['donor'], c['meta'], c['receiver'], c['charge'], rel)
+        elif c['fmt'] == '15':
+            args = (c['element'], c['charge'], rel)
+        elif c['kind'] == 'adf21':
+            args = (c['beam'], c['target'], c['zt'], rel)
+        elif c['kind'] == 'bmp':
+            args = (c['beam'], c['meta'], c['target'], c['zt'], rel)
+        else:
+            args = (c['beam'], c['target'], c['zt'], c['transition'], rel)
+        config.setdefault(b['spell'](key), []).append(args)
+    fails, disagree = [], []
+    st, e = quiet(I.install_files, config, download=False, repository_path=w.repo, adas_path=w.adas)
+    if st != 'ok':
+        return [('C08:install_files:raised-' + st, 'install_files raised %s: %s' % (st, e))], []
+    if os.path.isdir(DEFAULT_REPOSITORY_PATH) and os.listdir(DEFAULT_REPOSITORY_PATH):
+        fails.append(('C08:install_files:wrote-to-default-repository', 'install_files(repository_path=tmp) also wrote %r under the default repository'
+                      % sorted(os.listdir(DEFAULT_REPOSITORY_PATH))))
+    for key, c in b['cases']:
+        d = None
+        if c['fmt'] == '11':
+            cls = c['cls']
+            d = _readback11(R, c, cls, w.repo)
+            # K: the family that the model's dispatch table + installer table name for this key must hold the file's tables
+            targets = model_dispatch.get(b['spell'](key), [])
+            if len(targets) != 1 or targets[0] not in INSTALLER_FAMILY:
+                disagree.append('model dispatches %s to %r' % (key, targets))
+            elif (_readback11(R, c, INSTALLER_FAMILY[targets[0]], w.repo) is None) != (d is None) and INSTALLER_FAMILY[targets[0]] == cls:
+                disagree.append('model family for %s disagrees with the repository' % key)
+            elif INSTALLER_FAMILY[targets[0]] != cls and _readback11(R, c, INSTALLER_FAMILY[targets[0]], w.repo) is not None:
+                disagree.append('model sends %s to %s but the data is not there' % (key, targets[0]))
+        elif c['fmt'] == '12':
+            for tr, stc, _ in c['blocks']:
+                st3, back = call(R.get_beam_cx_rates, c['donor'], c['receiver'], c['charge'], tr, w.repo)
+                back = dict(back) if st3 == 'ok' else {}
+                d = d or ('get raised %s' % st3 if st3 != 'ok' else ('metastable missing' if c['meta'] not in back else
+                          cmp_struct(back[c['meta']], stc, fields=STORED12)))
+        elif c['fmt'] == '15':
+            el, ch, want = c['element'], c['charge'], c['want']
+            for cls, getter in (('excitation', R.get_pec_excitation_rate), ('recombination', R.get_pec_recombination_rate)):
+                for tr, stc in want[cls].items():
+                    st3, back = call(getter, el, ch, tr, w.repo)
+                    d = d or ('%s get raised %s' % (cls, st3) if st3 != 'ok' else cmp_struct(back, stc))
+            for tr, stc in want['thermalcx'].items():
+                st3, back = call(R.get_pec_thermal_cx_rate, hydrogen, 0, el, ch + 1, tr, w.repo)
+                if st3 != 'ok':
+                    d = d or 'thermalcx get raised %s' % st3
+                else:
+                    r3 = np.asarray(back['rate'], dtype=float)
+                    d = d or (cmp_struct({'ne': back['ne'], 'te': back['te'], 'rate': r3[:, :, 0]}, stc) if r3.ndim == 3 else 'thermalcx shape')
+            for tr, stc in want['wavelength'].items():
+                st3, back = call(R.get_wavelength, el, ch, tr, w.repo)
+                d = d or ('wavelength get raised %s' % st3 if st3 != 'ok' else cmp_struct({'wl': back}, stc))
+        else:
+            kind = c['kind']
+            if kind == 'adf21':
+                st3, back = call(R.get_beam_stopping_rate, c['beam'], c['target'], c['zt'], w.repo)
+            elif kind == 'bmp':
+                st3, back = call(R.get_beam_population_rate, c['beam'], c['meta'], c['target'], c['zt'], w.repo)
+            else:
+                st3, back = call(R.get_beam_emission_rate, c['beam'], c['target'], c['zt'], c['transition'], w.repo)
+            d = 'get raised %s' % st3 if st3 != 'ok' else cmp_struct(back, c['struct'])
+        if d:
+            fails.append(('C08:install_files:%s:%s' % (key, sigcat(d)), 'install_files: key %s, file %s: %s' % (key, c['rel'], d)))
+    # families that received nothing: element B has exactly one ADF11 class; every charge of the other five must be absent
+    cB = [c for k, c in b['cases'] if c['fmt'] == '11' and c['element'] == b['elB']][0]
+    for cls in sorted(CLS11):
+        if cls == b['clsB']:
+            continue
+        for ch in range(-1, max(cB['z1s']) + 2):
+            st4, _ = _get11(R, cls, b['elB'], ch, w.repo)
+            if st4 != 'RuntimeError':
+                fails.append(('C08:install_files:adf11%s:data-in-family-%s' % (b['clsB'], cls),
+                              'install_files: only an %s file was installed for %s, yet %s(charge %d) gave %s'
+                              % (b['clsB'], b['elB'].symbol, FAMILY11[cls], ch, st4)))
+                break
+    # the beam families hold exactly one species pair each: a second target must be absent
+    from cherab.core.atomic import lithium
+    for getter, args in ((R.get_beam_stopping_rate, (hydrogen, lithium, 3)), (R.get_beam_population_rate, (hydrogen, 1, lithium, 3)),
+                         (R.get_beam_emission_rate, (hydrogen, lithium, 3, (3, 2))), (R.get_beam_cx_rates, (hydrogen, lithium, 3, (8, 7)))):
+        st5, _ = call(getter, *args, w.repo)
+        if st5 != 'RuntimeError':
+            fails.append(('C08:install_files:stray-data:' + getter.__name__, '%s for a species never installed gave %s' % (getter.__name__, st5)))
+    return fails, disagree
 
 
 def check_tags(ctx):
